@@ -112,11 +112,22 @@ fn main() {
             let mut ncalls = 0usize;
             barrier.wait();
             for round in 0..rounds {
+                // even rounds run in LOCKSTEP: every thread takes the patterns in the same order and waits for the others before
+                // each one, so that all threads are inside the same Regex at the same time (each on its own shuffle of the cells,
+                // i.e. on different texts); odd rounds let every thread wander on its own
+                let lockstep = round % 2 == 0;
                 let mut order: Vec<usize> = (0..compiled.len()).collect();
-                order.shuffle(&mut rng);
+                if lockstep {
+                    order.shuffle(&mut rand::rngs::StdRng::seed_from_u64(seed * 7919 + round as u64));
+                } else {
+                    order.shuffle(&mut rng);
+                }
                 for pi in order {
-                    // odd rounds use the regexes with the exact backtrack limit
-                    let re = match (th % 2 == 1, round % 2 == 1) {
+                    if lockstep {
+                        barrier.wait();
+                    }
+                    // rounds 2,3 (6,7 ...) use the regexes with the exact backtrack limit
+                    let re = match (th % 2 == 1, (round / 2) % 2 == 1) {
                         (true, false) => own[pi].as_ref(),
                         (true, true) => own_limited[pi].as_ref(),
                         (false, false) => compiled[pi].as_ref(),
